@@ -481,7 +481,7 @@ PROPS.update({
                 assumptions=["as C06"],
                 level_text="Coq theorems for every capacity and polling pattern: a poll reports the end only after the vector is dropped, and then the replica equals the final contents - also for a subscriber lagged beyond capacity (after the repair of handle_lag's Closed arm) or in the middle of a batch; a Pending subscriber is registered and the drop wakes every registered subscriber. Tied to the crate by histories ending in drop + drain in all four lag situations.",
                 level_note="Trusted: as C05. Finding F2 (stale final state after lag + drop) was repaired in 0590f0c."),
-    "C17": dict(streams=ovec_streams("c17", {"plain"}, proj_ovec_plain), trusted=OVEC_TRUST,
+    "C17": dict(streams=ovec_streams("c17", {"plain", "oobsilent"}, proj_ovec_plain), trusted=OVEC_TRUST,
                 assumptions=[],
                 level_text="Coq theorems: ObservableVector's and the transaction's mutators leave and return exactly what the plain-list operation does; insert/set/remove panic exactly when out of range and a panicking call has no effect; for_each/entries never panics, hands every original element to the closure once in order with its current index, and leaves the decisions' results followed by the untouched rest (cursor invariant). Tied to vector.rs/entry.rs/transaction.rs by exhaustive decision sequences and all indices 0..len+2, compared with a plain Vec in the harness.",
                 level_note="Trusted: as C05."),
